@@ -17,20 +17,20 @@ pub const PASS: &str = "password";
 pub const OTHER_PASS: &str = "passwore";
 pub const MS: u64 = 1_000_000;
 
-#[derive(Clone, Copy, Debug, PartialEq, Eq, Hash)]
+#[derive(Clone, Copy, Debug, PartialEq, Eq, Hash, serde::Serialize, serde::Deserialize)]
 pub enum Transport {
     Reliable { timeout_ms: u64 },
     Unreliable { rto_ms: u64, gran_ms: u64, rm: u32, rc: u32 },
 }
 
-#[derive(Clone, Copy, Debug, PartialEq, Eq, Hash)]
+#[derive(Clone, Copy, Debug, PartialEq, Eq, Hash, serde::Serialize, serde::Deserialize)]
 pub enum Mech {
     None,
     ShortTerm(Option<bool>), // Some(false) = MI, Some(true) = SHA256, None = to be learned
     LongTerm,
 }
 
-#[derive(Clone, Debug, PartialEq, Eq, Hash)]
+#[derive(Clone, Debug, PartialEq, Eq, Hash, serde::Serialize, serde::Deserialize)]
 pub struct Cfg {
     pub transport: Transport,
     pub mech: Mech,
